@@ -21,6 +21,9 @@ theorem contStep_super {o : Chunk} {sup : String} {f l : Run} {st : ContState} (
       (st.lastEnd = some o.start ∧ st.lastRun = some (some sup) ∧ ∃ r : Run, st.lastSubrun = some (some r) ∧ r.stop = o.start)) :
     contStep st o = .ok { lastEnd := some o.stop, lastRun := some (some sup), lastSubrun := some (some l) } := by
   unfold contStep
+  rw [Chunk.not_bad_of_runId hrun]
+  simp only [Bool.false_eq_true, if_false]
+  unfold contStepCore
   rcases hinv with ⟨h1, h2, h3⟩ | ⟨h1, h2, r, h3, h4⟩
   · simp [hsr, hrun, hf, hl, h1, h2, h3, bind, Except.bind, pure, Except.pure]
   · by_cases hid : f.id = r.id
@@ -77,7 +80,7 @@ theorem gapChunk_split :
     gapChunk.split 35 true = .ok
       (⟨"d", "k", some "_s", 20, 35, [], some [⟨"b", 30, 40⟩], [⟨"_s", 20, 35⟩], 1⟩,
        ⟨"d", "k", some "_s", 35, 40, [], some [⟨"b", 30, 40⟩], [⟨"_s", 35, 40⟩], 1⟩) := by
-  rw [Chunk.split_eq]
+  rw [Chunk.split_eq (Chunk.not_bad_of_runId (rid := "_s") rfl)]
   have hv : splitData gapChunk 35 true = .ok ([], [], 35) := by
     have : max (min (35:Int) 40) 20 = 35 := by decide
     simp [splitData, gapChunk, splitArray, this]
